@@ -200,6 +200,11 @@ class NcpSim:
     # security
     def c_setInitialSecurityState(self, a):
         self.security = a["state"]
+        # the stack resets its outgoing frame counters (NWK and APS) at this call unless NO_FRAME_COUNTER_RESET is set
+        # (documented with the bit in bellows/types/named.py, from the EmberZNet API reference)
+        if self.t.EmberInitialSecurityBitmask.NO_FRAME_COUNTER_RESET not in a["state"].bitmask:
+            self.staged_nwk_fc = self.staged_aps_fc = None
+            self.nwk_fc = self.aps_fc = 0
         return [self.st(True)]
 
     def c_getCurrentSecurityState(self, a):
